@@ -96,6 +96,12 @@ def isAlmostIntX (x : XF) (tol : Rat) : Bool :=
   | .fin q => isAlmostInt q tol
   | _ => false
 
+/-! ### `split_translation` (math.py:320-337) -/
+
+/-- `split_translation(t)` → `(t_whole, t_subpix)`: `split_float` on both coordinates. -/
+def splitTranslation (t : Rat × Rat) : (Rat × Rat) × (Rat × Rat) :=
+  (((splitFloat t.1).1, (splitFloat t.2).1), ((splitFloat t.1).2, (splitFloat t.2).2))
+
 /-! ### `align_up_pow2`, `align_down_pow2`, `clamp` (math.py:125-153)
 
 `int(ceil(log2(x)))` is modelled by its exact value `clog2 x` = least `n` with `x ≤ 2^n`. -/
@@ -403,6 +409,50 @@ def fitCost (k : Nat) (Ain Ab : Aff) (data : List ((Rat × Rat) × (Rat × Rat))
     let v := evalCC (reshape k cc) (Ain.apply q.1)
     let w := Ab.apply q.2
     (v.1 - w.1) * (v.1 - w.1) + (v.2 - w.2) * (v.2 - w.2)).sum
+
+/-- Which polynomial family `Poly2d.fit` fits for `N` point pairs (math.py:696-709): fewer than 3
+points are rejected, `N ≥ 9` biquadratic (`_fit9`), `N ≥ 4` bilinear (`_fit4`), else affine (`_fit3`). -/
+inductive FitKind where
+  | affine | bilinear | biquadratic
+  deriving DecidableEq, Repr
+
+def fitKind (N : Nat) : Res FitKind :=
+  if N < 3 then .error .valueError
+  else if N ≥ 9 then .ok .biquadratic
+  else if N ≥ 4 then .ok .bilinear
+  else .ok .affine
+
+/-- Number of columns of the design matrix `AA`, i.e. of unknown coefficients per output. -/
+def FitKind.ncols : FitKind → Nat
+  | .affine => 3
+  | .bilinear => 4
+  | .biquadratic => 9
+
+/-- Side `k` of the coefficient table handed to `Poly2d` (`cc.reshape(k, k, 2)`). -/
+def FitKind.side : FitKind → Nat
+  | .affine => 2
+  | .bilinear => 2
+  | .biquadratic => 3
+
+/-- One row of the design matrix `AA` of `_fit3` / `_fit4` / `_fit9` for the (normalised) point
+`(x, y)`: columns `1, y, x` / `1, y, x, x·y` / `1, y, y², x, x·y, x·y², x², x²·y, x²·y²`. -/
+def designRow (kind : FitKind) (p : Rat × Rat) : List Rat :=
+  let x := p.1
+  let y := p.2
+  match kind with
+  | .affine => [1, y, x]
+  | .bilinear => [1, y, x, x * y]
+  | .biquadratic => [1, y, y * y, x, x * y, x * y * y, x * x, x * x * y, x * x * y * y]
+
+/-- The coefficient table as `Poly2d` receives it: `_fit3` appends a zero row before the reshape. -/
+def padCoeffs (kind : FitKind) (cc : List (Rat × Rat)) : List (Rat × Rat) :=
+  match kind with
+  | .affine => cc ++ [(0, 0)]
+  | _ => cc
+
+/-- `AA[i] · cc` : the model value LAPACK fits to the `i`-th target (both outputs). -/
+def designDot (row : List Rat) (cc : List (Rat × Rat)) : Rat × Rat :=
+  ((row.zip cc).foldl (fun acc q => acc + q.1 * q.2.1) 0, (row.zip cc).foldl (fun acc q => acc + q.1 * q.2.2) 0)
 
 end Poly2d
 
